@@ -207,3 +207,49 @@ M('c13-asgi-name-override-normalises', 'C13', 'R10', ASGI,
   "    async def get_data(self) -> bytes:  # type: ignore[override]\n",
   "    @property\n    def name(self):\n        value = super().name\n        return value.casefold() if value else value\n\n"
   "    async def get_data(self) -> bytes:  # type: ignore[override]\n")
+
+# ----------------------------------------------------------------------- R11 (seeded s6-c13-1)
+MTY = 'falcon/util/mediatypes.py'
+_PARITY = """        while end > 0 and (s.count('"', 0, end) - s.count('\\\\"', 0, end)) % 2:\n"""
+M('c13-quote-parity-third-term', 'C13', 'R11', MTY, _PARITY,
+  """        while end > 0 and (s.count('"', 0, end) - s.count('\\\\"', 0, end) + s.count('\\\\\\\\"', 0, end)) % 2:\n""")
+M('c13-quote-parity-no-escape-term', 'C13', 'R11', MTY, _PARITY,
+  """        while end > 0 and s.count('"', 0, end) % 2:\n""")
+M('c13-quote-parity-four-terms', 'C13', 'R11', MTY, _PARITY,
+  """        while end > 0 and (s.count('"', 0, end) - s.count('\\\\"', 0, end) + s.count('\\\\\\\\"', 0, end) - s.count('\\\\\\\\\\\\"', 0, end)) & 1:\n""")
+
+# ----------------------------------------------------------------------- R12 (seeded s6-c13-2)
+_RX_AFTER = "_FILENAME_STAR_RFC5987 = re.compile(r\"([\\w-]+)'[\\w]*'(.+)\")\n"
+_FORM_RET = "        return form_cls(stream, boundary.encode(), content_length, self.parse_options)  # type: ignore[arg-type]\n"
+_RX_GUARD = """        if not _BOUNDARY_RFC2046.fullmatch(boundary):
+            raise errors.HTTPInvalidHeader(
+                'The boundary parameter contains characters that are not allowed',
+                'Content-Type',
+            )
+
+"""
+M2('c13-boundary-regex-min-two', 'C13', 'R12', [
+    {'file': SYNC, 'old': _RX_AFTER,
+     'new': _RX_AFTER + "_BOUNDARY_RFC2046 = re.compile(\n    r\"[0-9A-Za-z'()+_,\\-./:=? ]{1,69}[0-9A-Za-z'()+_,\\-./:=?]\"\n)\n"},
+    {'file': SYNC, 'old': _FORM_RET, 'new': _RX_GUARD + _FORM_RET}])
+M2('c13-boundary-regex-max-69', 'C13', 'R12', [
+    {'file': SYNC, 'old': _RX_AFTER,
+     'new': _RX_AFTER + "_BOUNDARY_RFC2046 = re.compile(r\"[0-9A-Za-z'()+_,\\-./:=? ]{0,68}[0-9A-Za-z'()+_,\\-./:=?]\")\n"},
+    {'file': SYNC, 'old': _FORM_RET, 'new': _RX_GUARD + _FORM_RET}])
+M2('c13-boundary-regex-match-local-none', 'C13', 'R12', [
+    {'file': SYNC, 'old': _RX_AFTER,
+     'new': _RX_AFTER + "_BOUNDARY_RFC2046 = re.compile(r\"[0-9A-Za-z'()+_,\\-./:=? ]+[0-9A-Za-z'()+_,\\-./:=?]$\")\n"},
+    {'file': SYNC, 'old': _FORM_RET, 'new': """        valid = _BOUNDARY_RFC2046.match(boundary)
+        if valid is None:
+            raise errors.HTTPInvalidHeader('Invalid boundary', 'Content-Type')
+
+""" + _FORM_RET}])
+M('c13-boundary-second-length-test', 'C13', 'R12', SYNC, _FORM_RET, """        if len(boundary) < 2:
+            raise errors.HTTPInvalidHeader('The boundary parameter is too short', 'Content-Type')
+
+""" + _FORM_RET)
+M('c13-boundary-inner-space-refused', 'C13', 'R12', SYNC, _FORM_RET, """        if ' ' in boundary:
+            raise errors.HTTPInvalidHeader('The boundary parameter must not contain white space', 'Content-Type')
+
+""" + _FORM_RET)
+# negative controls verified by hand with --root (silent): the correct `{0,69}` pattern; `if '\\r' in boundary or '\\n' in boundary: raise`
